@@ -121,10 +121,16 @@ Theorem int_cmp_old_refuted :
 Proof. exact CmpProofs.int_cmp_trunc_refuted. Qed.
 Print Assumptions int_cmp_old_refuted.
 
-(* 14. the comparison code of the working tree has the shapes Values.v models (re-read on every run) *)
+(* 14. the comparison code of the working tree, re-read on every run: Int_Cmp, Float_Cmp and the six
+       predicates are TRANSLATED (tools/cx_translate.py -> Generated.int_cmp_code, float_cmp_code,
+       pred_codes) and verified on the order abstraction (three computations each, sound for all operands
+       by CmpProofs.arun_sound), whatever equivalent C form they have; the container loops and the
+       instance-else-memcmp dispatch of cmp are matched as shapes *)
 Theorem model_shapes_match_source :
-  int_cmp_threeway = true /\ int_cmp_shape_ok = true /\ float_cmp_shape_ok = true /\ seq_cmp_shape_ok = true /\ tree_cmp_shape_ok = true /\
-  cmp_predicates_shape_ok = true /\ cmp_default_shape_ok = true.
+  code_is_compare false int_cmp_code /\ code_is_compare true float_cmp_code /\
+  (exists l, pred_codes = Some l /\
+     forall c, map (aeval false c [AOp0; AOp1]) l = map (fun i => Some (AC (b2z (pred_abs i c)))) [0; 1; 2; 3; 4; 5]%nat) /\
+  seq_cmp_shape_ok = true /\ tree_cmp_shape_ok = true /\ cmp_dispatch_ok cmp_dispatch_table = true.
 Proof. exact CmpProofs.source_shapes. Qed.
 Print Assumptions model_shapes_match_source.
 
@@ -172,6 +178,21 @@ Theorem tuple_cmp_iterator_walk_refuted :
   walk_cmp 30 (SList (map snd t)) (SList [one; one; two]) = WRes 0.
 Proof. exact CmpProofs.tuple_cmp_iter_walk_refuted. Qed.
 Print Assumptions tuple_cmp_iterator_walk_refuted.
+
+(* 20. the device behind 12, 3 and 10: an expression that only compares its two operands (and, for doubles,
+       tests the sign of their rounded difference strictly) evaluates, on ANY operands whose order is c, to
+       what its order abstraction computes for c *)
+Theorem translated_code_depends_on_order_only :
+  forall (diff_ok : bool) (c : comparison) (A : calg) (x y : cT A),
+  c_cmp A x y = Some c -> c_cmp A y x = Some (CompOpp c) -> c_cmp A x x = Some Eq -> c_cmp A y y = Some Eq ->
+  (diff_ok = true -> forall o, strict o = true ->
+    cop_test o (c_cmp A (c_sub A x y) (c_zero A)) = cop_test o (Some c) /\
+    cop_test o (c_cmp A (c_sub A y x) (c_zero A)) = cop_test o (Some (CompOpp c)) /\
+    cop_test o (c_cmp A (c_zero A) (c_sub A x y)) = cop_test o (Some (CompOpp c)) /\
+    cop_test o (c_cmp A (c_zero A) (c_sub A y x)) = cop_test o (Some c)) ->
+  forall p z, arun diff_ok c p = Some z -> crun A p x y = Some z.
+Proof. exact CmpProofs.arun_sound. Qed.
+Print Assumptions translated_code_depends_on_order_only.
 
 (* ------------------------------------------------------------------ non-vacuity of `dom` *)
 Example dom_inhabited_scalars :
